@@ -89,3 +89,16 @@ func IsComparable(tt types.Type) bool {
 	}
 	return false
 }
+
+// ZeroValue returns the zero value as a string, for any given type.
+// Types that have no nil value and are not basic (structs and arrays) are
+// printed as an empty composite literal of the type, for which typeString is used.
+func ZeroValue(typ types.Type, typeString func(types.Type) string) string {
+	switch typ.Underlying().(type) {
+	case *types.Basic:
+		return Zero(typ.Underlying())
+	case *types.Struct, *types.Array:
+		return typeString(typ) + "{}"
+	}
+	return "nil"
+}
